@@ -119,6 +119,7 @@ def plan(tier, seed):
             others = [j for j in HAND if j["model"] != fam["model"] and j["model"].split()[0] == fam["model"].split()[0]]
         if others:
             seq.insert(rng.randrange(len(seq)), rng.choice(others))
+        seq += [dict(j) for j in rng.sample(HAND[7:10], 2)]  # two hardware families of one vendor on rules the templates render differently
         seq += [dict(rng.choice(SYNTH)) for _ in range(2)]  # rules whose logic writes to its rule argument, twice per sequence
         jc = [j for j in jobs if j.get("sample", "").startswith("juniper_comments") and not j.get("acl")]
         seq += [dict(rng.choice(jc)) for _ in range(2)]     # the vendor diff logic that writes into the matched rule's attributes
